@@ -136,6 +136,75 @@ func Block(fields []HF) []byte {
 	return b
 }
 
+// Enc is a small stateful HPACK encoder of the kind real clients use: exact matches of the static or dynamic table are sent as
+// indexed fields, everything else as a literal with incremental indexing (name taken from a table when it is there).  One Enc per
+// connection; the server's decoder has to keep its dynamic table in step or later requests decode to other headers.
+type Enc struct {
+	Max  int // dynamic table size limit (0 => 4096)
+	dyn  []HF
+	size int
+}
+
+var staticTable = []HF{{":authority", ""}, {":method", "GET"}, {":method", "POST"}, {":path", "/"}, {":path", "/index.html"}, {":scheme", "http"}, {":scheme", "https"},
+	{":status", "200"}, {":status", "204"}, {":status", "206"}, {":status", "304"}, {":status", "400"}, {":status", "404"}, {":status", "500"}, {"accept-charset", ""},
+	{"accept-encoding", "gzip, deflate"}, {"accept-language", ""}, {"accept-ranges", ""}, {"accept", ""}, {"access-control-allow-origin", ""}, {"age", ""}, {"allow", ""},
+	{"authorization", ""}, {"cache-control", ""}, {"content-disposition", ""}, {"content-encoding", ""}, {"content-language", ""}, {"content-length", ""},
+	{"content-location", ""}, {"content-range", ""}, {"content-type", ""}, {"cookie", ""}, {"date", ""}, {"etag", ""}, {"expect", ""}, {"expires", ""}, {"from", ""},
+	{"host", ""}, {"if-match", ""}, {"if-modified-since", ""}, {"if-none-match", ""}, {"if-range", ""}, {"if-unmodified-since", ""}, {"last-modified", ""}, {"link", ""},
+	{"location", ""}, {"max-forwards", ""}, {"proxy-authenticate", ""}, {"proxy-authorization", ""}, {"range", ""}, {"referer", ""}, {"refresh", ""}, {"retry-after", ""},
+	{"server", ""}, {"set-cookie", ""}, {"strict-transport-security", ""}, {"transfer-encoding", ""}, {"user-agent", ""}, {"vary", ""}, {"via", ""}, {"www-authenticate", ""}}
+
+func (e *Enc) Block(fields []HF) []byte {
+	max := e.Max
+	if max == 0 {
+		max = 4096
+	}
+	var b []byte
+	for _, f := range fields {
+		exact, name := 0, 0
+		for i, s := range staticTable {
+			if s.Name == f.Name {
+				if name == 0 {
+					name = i + 1
+				}
+				if s.Value == f.Value && exact == 0 {
+					exact = i + 1
+				}
+			}
+		}
+		for i, d := range e.dyn {
+			if d.Name == f.Name {
+				if name == 0 {
+					name = 62 + i
+				}
+				if d.Value == f.Value && exact == 0 {
+					exact = 62 + i
+				}
+			}
+		}
+		if exact != 0 {
+			b = append(b, hpackInt(7, 0x80, exact)...)
+			continue
+		}
+		b = append(b, hpackInt(6, 0x40, name)...)
+		if name == 0 {
+			b = append(b, hpackInt(7, 0, len(f.Name))...)
+			b = append(b, f.Name...)
+		}
+		b = append(b, hpackInt(7, 0, len(f.Value))...)
+		b = append(b, f.Value...)
+		// insert, newest first, evict from the old end
+		e.dyn = append([]HF{f}, e.dyn...)
+		e.size += len(f.Name) + len(f.Value) + 32
+		for e.size > max && len(e.dyn) > 0 {
+			last := e.dyn[len(e.dyn)-1]
+			e.size -= len(last.Name) + len(last.Value) + 32
+			e.dyn = e.dyn[:len(e.dyn)-1]
+		}
+	}
+	return b
+}
+
 // Headers builds HEADERS (+ CONTINUATION frames when split > 0: the block is cut into pieces of `split` bytes).
 func Headers(stream uint32, end bool, block []byte, prio *Prio, split int) []byte {
 	var f byte
